@@ -28,6 +28,7 @@ package lq
 //@   assert Debug(logger)#2: [record] URL.Value == item.url.Raw && URL.Via == item.seedVia && URL.Hops == int64(item.url.Hops) && URL.ID == "" // C15: handed to the queue with its text unchanged, its parent page as 'via' and its hop count
 //@   loop for modifies prRecv, prHanded, prLastSent
 //@   loop for invariant [conserved] prRecv == prHanded + len(batch.URLs) && batch != nil // C15: every outlink the pipeline discovers is handed to the queue
+//@   loop for invariant [time-trigger] ticker != nil && time.periodic(ticker) // C15: deliveries are delayed but never dropped, for size- and timer-triggered batch fill levels (the time trigger of the receiver is a ticker: it keeps firing, so a batch that is not full is handed over at the latest one period later, also after an idle period)
 //@   loop for invariant [size-trigger] 0 <= len(batch.URLs) && len(batch.URLs) < batchSize && batchSize >= 1
 //@   loop for invariant [unshared] arrof(batch.URLs) != prLastSent && (prLastSent == 0 || allocated(prLastSent)) // the batch being filled never shares its backing array with the batch handed over last
 //@   ensures [flushed-on-stop] prRecv == prHanded // C15: every outlink the pipeline discovers is handed to the queue
@@ -99,6 +100,7 @@ package lq
 //@   assert Traverse(item)#1: [ack-id] URL.ID == item.id // C15: every finished seed is acknowledged to the queue by its id
 //@   loop for modifies frRecv, frHanded, frLastSent
 //@   loop for invariant [conserved] frRecv == frHanded + len(batch.URLs) && batch != nil // C15: every finished seed is acknowledged to the queue
+//@   loop for invariant [time-trigger] ticker != nil && time.periodic(ticker) // C15: deliveries are delayed but never dropped, for size- and timer-triggered batch fill levels (the time trigger of the receiver is a ticker: it keeps firing, so a batch that is not full is handed over at the latest one period later, also after an idle period)
 //@   loop for invariant [size-trigger] 0 <= len(batch.URLs) && (len(batch.URLs) < batchSize || len(batch.URLs) == 0)
 //@   loop for invariant [unshared] arrof(batch.URLs) != frLastSent && (frLastSent == 0 || allocated(frLastSent)) // C15: a batch waiting for its retry is not overwritten by the batch being filled
 
